@@ -1563,7 +1563,7 @@ class SSHConnection(SSHPacketHandler, asyncio.Protocol):
 
         # pylint: disable=broad-except
         try:
-            while self._inpbuf and self._recv_handler():
+            while self._inpbuf and self._transport and self._recv_handler():
                 pass
         except DisconnectError as exc:
             self._send_disconnect(exc.code, exc.reason, exc.lang)
